@@ -386,6 +386,8 @@ type Exec struct {
 	MayMissObserved    int
 	LostBehindOOOMerge int
 	lostSticky         map[string]map[int64]bool // samples once tolerated as lost behind a merged out-of-order block
+	seriesMaxT         map[string]int64          // largest timestamp accepted per series so far
+	inOrderSure        map[string]map[int64]bool // samples that were in-order for their series at append time
 	Steps              []string
 	// Stats
 	Accepted, Rejected, OOOAccepted                    int
@@ -737,6 +739,24 @@ func (e *Exec) modelAppend(op Op, rec AckRec) {
 		for _, vk := range s.AllowedKeys() {
 			e.Model.Add(k, s.T, vk)
 		}
+		// newer than everything this series was given before and not below the head's in-order window:
+		// in-order for its series even when the conservative rule below (it only sees that the
+		// transaction contained some out-of-order sample) calls it "maybe out-of-order"
+		if prev, ok := e.seriesMaxT[k]; (!ok || s.T > prev) && s.T >= headMax-e.Cfg.BlockRange/2 {
+			if e.inOrderSure == nil {
+				e.inOrderSure = map[string]map[int64]bool{}
+			}
+			if e.inOrderSure[k] == nil {
+				e.inOrderSure[k] = map[int64]bool{}
+			}
+			e.inOrderSure[k][s.T] = true
+		}
+		if prev, ok := e.seriesMaxT[k]; !ok || s.T > prev {
+			if e.seriesMaxT == nil {
+				e.seriesMaxT = map[string]int64{}
+			}
+			e.seriesMaxT[k] = s.T
+		}
 		if oooDelta > 0 && (s.T <= headMax || s.T < headMaxAfter) {
 			if e.maybeOOO[k] == nil {
 				e.maybeOOO[k] = map[int64]bool{}
@@ -882,7 +902,7 @@ func (e *Exec) effective(d tsdbx.Dump) tsdbx.Expect {
 					obs[s.T] = true
 				}
 				for t := range ts {
-					if obs[t] || e.maybeOOO[k][t] {
+					if obs[t] || (e.maybeOOO[k][t] && !e.inOrderSure[k][t]) {
 						continue
 					}
 					for _, rg := range cut {
@@ -1212,6 +1232,15 @@ func (e *Exec) CloneModel(dir string) *Exec {
 	x.maybeOOO = clone2(e.maybeOOO)
 	x.Ghosts = clone2(e.Ghosts)
 	x.orphan = clone2(e.orphan)
+	if len(e.seriesMaxT) > 0 {
+		x.seriesMaxT = map[string]int64{}
+		for k, v := range e.seriesMaxT {
+			x.seriesMaxT[k] = v
+		}
+	}
+	if len(e.inOrderSure) > 0 {
+		x.inOrderSure = clone2(e.inOrderSure)
+	}
 	if len(e.lostSticky) > 0 {
 		x.lostSticky = map[string]map[int64]bool{}
 		for k, ts := range e.lostSticky {
